@@ -804,7 +804,12 @@ func writeFieldReadByter(name string, typ FieldType, w *iohelp.ErrorWriter, sett
 			ln = getLineWithTabs(settings.typeByteReaders[typ.Map.Key], depth+1, depthName("k", depth), typ.goString(settings))
 		}
 		w.SafeWrite([]byte(strings.Replace(ln, "=", ":=", 1)))
-		writeFieldReadByter("("+name+")["+depthName("k", depth)+"]", typ.Map.Value, w, settings, depth+1, safe)
+		// the value is read into a local and stored once it is complete: the readers advance by the size of what they have just
+		// read, and an entry under a NaN key cannot be looked up again to ask it for that
+		vName := depthName("v", depth)
+		writeLineWithTabs(w, "var "+vName+" %TYPE", depth+1, vName, typ.Map.Value.goString(settings))
+		writeFieldReadByter(vName, typ.Map.Value, w, settings, depth+1, safe)
+		writeLineWithTabs(w, "(%ASGN)["+depthName("k", depth)+"] = "+vName, depth+1, name)
 		writeLineWithTabs(w, "}", depth)
 	} else {
 		simpleTyp := typ.Simple
